@@ -6,7 +6,6 @@ import (
 	"fmt"
 	"strings"
 	"sync"
-	"sync/atomic"
 	"time"
 
 	kafka "github.com/segmentio/kafka-go"
@@ -37,14 +36,7 @@ func init() {
 }
 
 func runC08(c *core.Ctx) {
-	var tick uint64
-	kafka.VerifSetPoints(map[string]func(){
-		"writer.awaitBatch.timer": func() {
-			if n := atomic.AddUint64(&tick, 1); n%2 == 0 {
-				time.Sleep(time.Duration(50+(n%5)*100) * time.Microsecond)
-			}
-		},
-	})
+	kafka.VerifSetPoints(wHookPoints())
 	c.CasesPar("limits", c.N(1000, 80000), 4, func(k *core.Case) {
 		r := k.R
 		cfg := genWriterCfg(r, "")
@@ -124,7 +116,7 @@ func runC08(c *core.Ctx) {
 
 	c.CasesPar("flush", c.N(200, 12000), 4, func(k *core.Case) {
 		r := k.R
-		variant := core.Pick(r, "a-size-trigger", "b-timer-trigger", "c-quiescence", "c-quiescence")
+		variant := core.Pick(r, "a-size-trigger", "b-timer-trigger", "c-quiescence", "c-quiescence", "d-close-at-timer")
 		cfg := genWriterCfg(r, "")
 		cfg.Faults = nil
 		cfg.NoClose = true
@@ -144,6 +136,14 @@ func runC08(c *core.Ctx) {
 			cfg.BatchTimeout = 20 * time.Millisecond
 			cfg.BatchSize = 100000
 			cfg.Goroutines, cfg.Calls, cfg.MsgsMax = 1, 1, 1
+		case "d-close-at-timer":
+			// the writer is closed at about the moment the batch timer closes the open batch: whichever of
+			// the two gets there first, the accepted messages have been scheduled and must be sent
+			cfg.Topics = []int{1}
+			cfg.WriterTopic = true
+			cfg.BatchTimeout = time.Duration(core.Pick(r, 1, 2, 5)) * time.Millisecond
+			cfg.BatchSize = 100000
+			cfg.Goroutines, cfg.Calls, cfg.MsgsMax = 1, 1, 3
 		default:
 			cfg.Async = r.Bool()
 			cfg.BatchTimeout = time.Duration(core.Pick(r, 1, 5, 20, 50)) * time.Millisecond
@@ -175,7 +175,12 @@ func runC08(c *core.Ctx) {
 		} else {
 			wRunWorkload(k, run, opts)
 		}
-		// without any further write and without Close, every accepted message must reach the broker
+		if variant == "d-close-at-timer" {
+			time.Sleep(cfg.BatchTimeout + time.Duration(r.Range(-400, 600))*time.Microsecond)
+			wClose(run)
+		}
+		// without any further write and without Close (variant d: once Close has returned), every accepted
+		// message must reach the broker
 		want := map[string]bool{}
 		for _, call := range run.Calls {
 			if call.Err != nil && call.PerMsg == nil {
@@ -186,6 +191,9 @@ func runC08(c *core.Ctx) {
 			}
 		}
 		deadline := time.Now().Add(10 * time.Second)
+		if variant == "d-close-at-timer" {
+			deadline = time.Now().Add(200 * time.Millisecond) // the writer is closed: nothing more can be sent
+		}
 		missing := 0
 		for {
 			seen := map[string]bool{}
@@ -207,10 +215,14 @@ func runC08(c *core.Ctx) {
 		}
 		c.Eval(1)
 		c.Count("flush_variant:"+variant, 1)
-		if missing > 0 {
+		if missing > 0 && variant == "d-close-at-timer" {
+			k.Viol("c08:accepted-not-sent-at-close", fmt.Sprintf("%d of %d messages accepted by an asynchronous writer were never sent: the writer was closed %s after the write, about when the batch timer (%s) fired", missing, len(want), cfg.BatchTimeout, cfg.BatchTimeout), map[string]any{"attempts": describeAttempts(wAttempts(run))})
+		} else if missing > 0 {
 			k.TimeViol("c08:not-flushed:"+variant, fmt.Sprintf("%d of %d accepted messages were not sent within 10 s although no further write was needed (variant %s)", missing, len(want), variant), map[string]any{"attempts": describeAttempts(wAttempts(run))})
 		}
-		wClose(run)
+		if variant != "d-close-at-timer" {
+			wClose(run)
+		}
 		c.Distinct(fmt.Sprintf("flush %s bs%d bt%s async%v faults%d", variant, cfg.BatchSize, cfg.BatchTimeout, cfg.Async, len(cfg.Faults)))
 		if k.Idx < 6 {
 			c.Sample(map[string]any{"case": k.ID, "variant": variant, "config": cfg.desc(), "accepted": len(want), "missing_after_wait": missing})
